@@ -97,7 +97,14 @@ def handle (j : Json) : Except String Json := do
     let sy ← getBool cfg "symmetric"
     let kn ← getBool cfg "keep_negative"
     let al ← getOptRat cfg "alpha"
-    let c : LinCfg := { bits := b, integer := i, symmetric := sy, keepNeg := kn, alpha := al }
+    let c0 : LinCfg := { bits := b, integer := i, symmetric := sy, keepNeg := kn, alpha := al }
+    -- route "reassign-alpha": constructed with `ctor_alpha`, `alpha` assigned afterwards
+    let c : LinCfg ← match (getBool cfg "has_ctor_alpha").toOption with
+      | some true => do
+        let ca ← getOptRat cfg "ctor_alpha"
+        let o : LinObj := (LinObj.construct { c0 with alpha := ca }).setAlpha al
+        pure o.effective
+      | _ => pure c0
     let xs ← getRatList j "xs"
     pure <| Json.mkObj [("ys", rats (xs.map (qlinear t c))), ("min", ratToJson (qlinearMin c)),
       ("max", ratToJson (qlinearMax c)), ("range", rats (qlinearRange c))]
